@@ -113,7 +113,8 @@ Record Ext (s s' : st) : Prop := {
   e_penddone : forall x, In x (pids s) -> ~ In x (pids s') -> done s' x;
   e_done : forall x, done s x -> done s' x;
   e_meas : measure s' <= measure s;
-  e_src : forall x, fin_count s x = 0 -> 0 < fin_count s' x -> info s x <> None
+  e_src : forall x, fin_count s x = 0 -> 0 < fin_count s' x -> info s x <> None;
+  e_owned : forall y, fin_count s' y = 0 -> owned s' y = owned s y
 }.
 
 Lemma Forall2_refl_or {A} (l : list (option A)) : Forall2 (fun a b => a = b \/ a = None) l l.
@@ -171,6 +172,8 @@ Proof.
   - intros x H0 H3. destruct (Nat.eq_dec (fin_count s2 x) 0) as [Hz|Hnz].
     + rewrite <- (e_info _ _ H1). apply (e_src _ _ H2 x Hz H3).
     + apply (e_src _ _ H1 x H0). lia.
+  - intros y Hy. rewrite (e_owned _ _ H2 y Hy). apply (e_owned _ _ H1).
+    pose proof (e_fin _ _ H2 y). lia.
 Qed.
 
 Lemma Ext_regids s s' : Ext s s' -> incl (regids s') (regids s).
@@ -182,7 +185,7 @@ Proof. intros H. apply F2_somes_incl. apply H. Qed.
 (* ------------------------------------------------------------------ primitive steps *)
 Ltac ext_triv := first [ reflexivity | apply incl_refl | apply Forall2_refl_or
                        | (let H1 := fresh in let H2 := fresh in intros ? H1 H2; exfalso; apply H2; exact H1)
-                       | apply Nat.le_refl | (intros ? ?; assumption) ].
+                       | apply Nat.le_refl | (intros ? ?; assumption) | (intros ? ?; reflexivity) ].
 
 Lemma ginv_done_mono A s s' x :
   GInv A s' -> ~ In x A -> fin_count s x <= fin_count s' x -> free_count s x <= free_count s' x ->
@@ -247,13 +250,20 @@ Qed.
 Lemma set_mitems_ok A s m : GInv A s -> GInv A (set_mitems m s) /\ Ext s (set_mitems m s).
 Proof.
   intros G. split; [constructor; apply G|].
-  constructor; try ext_triv; try (intros x; apply Nat.le_refl); intros x H0 H1; change (0 < fin_count s x) in H1; lia.
+  constructor; try ext_triv; try (intros x; apply Nat.le_refl).
+  intros x H0 H1; change (0 < fin_count s x) in H1; lia.
 Qed.
 
-Lemma set_owned_ok A s f : GInv A s -> GInv A (set_owned f s) /\ Ext s (set_owned f s).
+(* a destructor clears the pointer of its own (already finalised) Box *)
+Lemma set_owned_ok A s o v :
+  GInv A s -> 0 < fin_count s o ->
+  GInv A (set_owned (upd_owned (owned s) o v) s) /\ Ext s (set_owned (upd_owned (owned s) o v) s).
 Proof.
-  intros G. split; [constructor; apply G|].
-  constructor; try ext_triv; try (intros x; apply Nat.le_refl); intros x H0 H1; change (0 < fin_count s x) in H1; lia.
+  intros G Hf. split; [constructor; apply G|].
+  constructor; try ext_triv; try (intros x; apply Nat.le_refl).
+  - intros x H0 H1; change (0 < fin_count s x) in H1; lia.
+  - intros y Hy. change (fin_count s y = 0) in Hy. cbn [owned set_owned]. unfold upd_owned.
+    destruct (Nat.eqb_spec y o) as [->|Hne]; [lia | reflexivity].
 Qed.
 
 Lemma F2_null o l : Forall2 (fun a b => a = b \/ a = None) (null_pend o l) l.
@@ -339,26 +349,39 @@ Proof.
 Qed.
 
 (* ------------------------------------------------------------------ finalisation *)
+(* closure under ownership: with the collector running, whenever the destructor of y ran between
+   s and s', the object y owned in s — if it was registered or pending in s — is done in s' *)
+Definition Clo (s s' : st) : Prop :=
+  running s = true ->
+  forall y p, fin_count s y = 0 -> 0 < fin_count s' y -> owned s y = Some p ->
+              In p (regids s) \/ In p (pids s) -> done s' p.
+
+Lemma Clo_refl s : Clo s s.
+Proof. intros _ y p H0 H1. lia. Qed.
+
+Lemma Clo_same_log s s' : log s' = log s -> Clo s s'.
+Proof. intros Hl _ y p H0 H1. unfold fin_count in *. rewrite Hl in H1. lia. Qed.
+
+Lemma Clo_trans s1 s2 s3 : Ext s1 s2 -> Ext s2 s3 -> Clo s1 s2 -> Clo s2 s3 -> Clo s1 s3.
+Proof.
+  intros E1 E2 C1 C2 Hrun y p H0 H3 Hown Hin.
+  destruct (Nat.eq_dec (fin_count s2 y) 0) as [Hz|Hnz].
+  - assert (Hown2 : owned s2 y = Some p) by (rewrite (e_owned _ _ E1 y Hz); exact Hown).
+    assert (Hrun2 : running s2 = true) by (rewrite (e_running _ _ E1); exact Hrun).
+    destruct Hin as [Hin|Hin].
+    + destruct (in_dec Nat.eq_dec p (regids s2)) as [Hi|Hn].
+      * apply (C2 Hrun2 y p Hz H3 Hown2). left. exact Hi.
+      * apply (e_done _ _ E2). apply (e_regdone _ _ E1); assumption.
+    + destruct (in_dec Nat.eq_dec p (pids s2)) as [Hi|Hn].
+      * apply (C2 Hrun2 y p Hz H3 Hown2). right. exact Hi.
+      * apply (e_done _ _ E2). apply (e_penddone _ _ E1); assumption.
+  - apply (e_done _ _ E2). apply (C1 Hrun y p H0); [lia | exact Hown | exact Hin].
+Qed.
+
 (* what a finaliser `fin` achieves on states of measure below n *)
 Definition FinOK (fin : st -> id -> st) (n : nat) : Prop :=
   forall A s o, GInv A s -> ~ In o (regids s) -> ~ In o (pids s) -> fin_count s o = 0 -> info s o <> None -> measure s < n ->
-    GInv A (fin s o) /\ Ext s (fin s o) /\ done (fin s o) o.
-
-Lemma Ext_of_fields s s' :
-  running s' = running s -> info s' = info s -> ids s' = ids s -> torn s' = torn s -> bad s' = bad s -> oof s' = oof s ->
-  log s' = log s -> incl (reg s') (reg s) -> Forall2 (fun a b => a = b \/ a = None) (pend s') (pend s) ->
-  (forall x, In x (regids s) -> ~ In x (regids s') -> done s' x) ->
-  (forall x, In x (pids s) -> ~ In x (pids s') -> done s' x) ->
-  measure s' <= measure s -> Ext s s'.
-Proof.
-  intros. assert (Hf : forall x, fin_count s' x = fin_count s x) by (intros; unfold fin_count; congruence).
-  assert (Hr : forall x, free_count s' x = free_count s x) by (intros; unfold free_count; congruence).
-  constructor; auto.
-  - intros x. rewrite Hf. lia.
-  - intros x. rewrite Hr. lia.
-  - intros x [H11 H12]. unfold done. rewrite Hf, Hr. auto.
-  - intros x Hz Hp'. rewrite Hf in Hp'. lia.
-Qed.
+    GInv A (fin s o) /\ Ext s (fin s o) /\ done (fin s o) o /\ Clo s (fin s o).
 
 (* s1 = s with the entry of p taken out of the registry or out of the pending list; once p is
    done, everything that followed extends s itself *)
@@ -367,10 +390,10 @@ Lemma Ext_from_removed s s1 s3 p :
   log s1 = log s -> incl (reg s1) (reg s) -> Forall2 (fun a b => a = b \/ a = None) (pend s1) (pend s) ->
   (forall x, In x (regids s) -> x <> p -> In x (regids s1)) ->
   (forall x, In x (pids s) -> x <> p -> In x (pids s1)) ->
-  measure s1 <= measure s ->
+  measure s1 <= measure s -> owned s1 = owned s ->
   Ext s1 s3 -> done s3 p -> Ext s s3.
 Proof.
-  intros Hr Hi Hd Ht Hb Ho Hl Hreg Hpend Kr Kp Hm E Dn.
+  intros Hr Hi Hd Ht Hb Ho Hl Hreg Hpend Kr Kp Hm Hown E Dn.
   assert (Hf : forall x, fin_count s1 x = fin_count s x) by (intros; unfold fin_count; congruence).
   assert (Hfr : forall x, free_count s1 x = free_count s x) by (intros; unfold free_count; congruence).
   constructor.
@@ -391,51 +414,76 @@ Proof.
   - intros x [H1 H2]. apply (e_done _ _ E). unfold done. rewrite Hf, Hfr. auto.
   - pose proof (e_meas _ _ E). lia.
   - intros x H0 H1. rewrite <- Hi. apply (e_src _ _ E x); [rewrite Hf; exact H0 | exact H1].
+  - intros y Hy. rewrite (e_owned _ _ E y Hy). rewrite Hown. reflexivity.
+Qed.
+
+Lemma Clo_from_removed s s1 s3 p0 :
+  running s1 = running s -> log s1 = log s -> owned s1 = owned s ->
+  (forall x, In x (regids s) -> x <> p0 -> In x (regids s1)) ->
+  (forall x, In x (pids s) -> x <> p0 -> In x (pids s1)) ->
+  Clo s1 s3 -> done s3 p0 -> Clo s s3.
+Proof.
+  intros Hr Hl Hown Kr Kp C Dn Hrun y p H0 H3 Ho Hin.
+  destruct (Nat.eq_dec p p0) as [->|Hne]; [exact Dn|].
+  apply (C ltac:(congruence) y p).
+  - unfold fin_count in *. rewrite Hl. exact H0.
+  - exact H3.
+  - rewrite Hown. exact Ho.
+  - destruct Hin as [Hin|Hin]; [left; apply Kr | right; apply Kp]; assumption.
 Qed.
 
 (* GC_Rem (repaired) with a good finaliser *)
 Lemma gc_rem_ok fin n :
   FinOK fin n -> forall A s p, GInv A s -> measure s <= n ->
     GInv A (gc_rem true fin s p) /\ Ext s (gc_rem true fin s p) /\
-    (running s = true -> In p (regids s) \/ In p (pids s) -> done (gc_rem true fin s p) p).
+    (running s = true -> In p (regids s) \/ In p (pids s) -> done (gc_rem true fin s p) p) /\
+    Clo s (gc_rem true fin s p).
 Proof.
   intros HF A s p G Hm. unfold gc_rem.
   destruct (running s) eqn:Hrun; simpl negb; cbv iota.
-  2:{ split; [exact G|]. split; [apply Ext_refl|]. discriminate. }
+  2:{ split; [exact G|]. split; [apply Ext_refl|]. split; [discriminate | apply Clo_refl]. }
   destruct (in_pend s p) eqn:Hp.
   - apply in_pend_spec in Hp.
     destruct (null_pend_ok A s p G Hp) as (G1 & N1 & N2 & F0 & M1 & R1 & I1 & D1 & T1 & B1 & O1 & L1 & Rg1 & P1 & K1).
     set (s1 := set_pend (null_pend p (pend s)) s) in *.
     assert (Hinf : info s1 p <> None) by (rewrite I1; apply (g_info _ _ G); right; exact Hp).
-    destruct (HF A s1 p G1 N1 N2 F0 Hinf ltac:(lia)) as (G2 & E2 & Dn).
+    destruct (HF A s1 p G1 N1 N2 F0 Hinf ltac:(lia)) as (G2 & E2 & Dn & C2).
     set (s2 := fin s1 p) in *.
     destruct (set_mitems_ok A s2 (mitems_rule (nitems s2)) G2) as (G3 & E3).
-    split; [exact G3|]. split.
+    assert (C23 : Clo s1 (set_mitems (mitems_rule (nitems s2)) s2)).
+    { eapply Clo_trans; [exact E2 | exact E3 | exact C2 | apply Clo_same_log; reflexivity]. }
+    assert (Kr0 : forall x, In x (regids s) -> x <> p -> In x (regids s1)).
+    { intros x Hx _. unfold regids. rewrite Rg1. exact Hx. }
+    split; [exact G3|]. split; [|split; [intros _ _; apply (e_done _ _ E3); exact Dn|
+      exact (Clo_from_removed s s1 _ p R1 L1 eq_refl Kr0 K1 C23 (e_done _ _ E3 _ Dn))]].
     + assert (Hreg : incl (reg s1) (reg s)) by (rewrite Rg1; apply incl_refl).
       assert (Kr : forall x, In x (regids s) -> x <> p -> In x (regids s1)).
       { intros x Hx _. unfold regids. rewrite Rg1. exact Hx. }
       assert (Hm' : measure s1 <= measure s) by lia.
       assert (E23 : Ext s1 (set_mitems (mitems_rule (nitems s2)) s2)) by (eapply Ext_trans; [exact E2 | exact E3]).
-      exact (Ext_from_removed s s1 _ p R1 I1 D1 T1 B1 O1 L1 Hreg P1 Kr K1 Hm' E23 (e_done _ _ E3 _ Dn)).
-    + intros _ _. apply (e_done _ _ E3). exact Dn.
+      exact (Ext_from_removed s s1 _ p R1 I1 D1 T1 B1 O1 L1 Hreg P1 Kr K1 Hm' eq_refl E23 (e_done _ _ E3 _ Dn)).
   - destruct (in_reg s p) eqn:Hr.
     + apply in_reg_spec in Hr.
       destruct (rem_reg_ok A s p G Hr) as (G1 & N1 & N2 & F0 & M1 & R1 & I1 & D1 & T1 & B1 & O1 & L1 & Pd1 & Rg1 & K1).
       set (s1 := set_reg (rem_reg p (reg s)) s) in *.
       assert (Hinf : info s1 p <> None) by (rewrite I1; apply (g_info _ _ G); left; exact Hr).
-      destruct (HF A s1 p G1 N1 N2 F0 Hinf ltac:(lia)) as (G2 & E2 & Dn).
+      destruct (HF A s1 p G1 N1 N2 F0 Hinf ltac:(lia)) as (G2 & E2 & Dn & C2).
       set (s2 := fin s1 p) in *.
       destruct (set_mitems_ok A s2 (mitems_rule (nitems s2)) G2) as (G3 & E3).
-      split; [exact G3|]. split.
+      assert (C23 : Clo s1 (set_mitems (mitems_rule (nitems s2)) s2)).
+      { eapply Clo_trans; [exact E2 | exact E3 | exact C2 | apply Clo_same_log; reflexivity]. }
+      assert (Kp0 : forall x, In x (pids s) -> x <> p -> In x (pids s1)).
+      { intros x Hx _. unfold pids. rewrite Pd1. exact Hx. }
+      split; [exact G3|]. split; [|split; [intros _ _; apply (e_done _ _ E3); exact Dn|
+        exact (Clo_from_removed s s1 _ p R1 L1 eq_refl K1 Kp0 C23 (e_done _ _ E3 _ Dn))]].
       * assert (Hpend : Forall2 (fun a b => a = b \/ a = None) (pend s1) (pend s)) by (rewrite Pd1; apply Forall2_refl_or).
         assert (Kp : forall x, In x (pids s) -> x <> p -> In x (pids s1)).
         { intros x Hx _. unfold pids. rewrite Pd1. exact Hx. }
         assert (Hm' : measure s1 <= measure s) by lia.
         assert (E23 : Ext s1 (set_mitems (mitems_rule (nitems s2)) s2)) by (eapply Ext_trans; [exact E2 | exact E3]).
-        exact (Ext_from_removed s s1 _ p R1 I1 D1 T1 B1 O1 L1 Rg1 Hpend K1 Kp Hm' E23 (e_done _ _ E3 _ Dn)).
-      * intros _ _. apply (e_done _ _ E3). exact Dn.
+        exact (Ext_from_removed s s1 _ p R1 I1 D1 T1 B1 O1 L1 Rg1 Hpend K1 Kp Hm' eq_refl E23 (e_done _ _ E3 _ Dn)).
     + destruct (set_mitems_ok A s (mitems_rule (nitems s)) G) as (G3 & E3).
-      split; [exact G3|]. split; [exact E3|].
+      split; [exact G3|]. split; [exact E3|]. split; [|apply Clo_same_log; reflexivity].
       intros _ [H|H].
       * apply in_reg_spec in H. congruence.
       * apply in_pend_spec in H. congruence.
@@ -452,20 +500,39 @@ Proof.
   assert (Hm1 : measure s1 <= f) by (pose proof (e_meas _ _ E1); lia).
   assert (Hr1 : ~ In o (regids s1)) by exact Hr.
   assert (Hp1 : ~ In o (pids s1)) by exact Hp.
-  destruct (owned s1 o) as [p|].
-  - destruct (gc_rem_ok _ _ IH (o :: A) s1 p G1 Hm1) as (G2 & E2 & _).
+  assert (Hfin1 : forall y, y <> o -> fin_count s1 y = fin_count s y).
+  { intros y Hne. unfold s1. rewrite fin_add_fin. destruct (Nat.eqb_spec y o); [contradiction | reflexivity]. }
+  change (owned s1 o) with (owned s o).
+  destruct (owned s o) as [p|] eqn:Hown.
+  - destruct (gc_rem_ok _ _ IH (o :: A) s1 p G1 Hm1) as (G2 & E2 & D2 & C2).
     set (s2 := gc_rem true (finalise true f) s1 p) in *.
-    destruct (set_owned_ok (o :: A) s2 (upd_owned (owned s2) o None) G2) as (G3 & E3).
+    assert (Hfo2 : 0 < fin_count s2 o) by (destruct (g_prog _ _ G2 o (or_introl eq_refl)); lia).
+    destruct (set_owned_ok (o :: A) s2 o None G2 Hfo2) as (G3 & E3).
     set (s3 := set_owned (upd_owned (owned s2) o None) s2) in *.
     assert (E13 : Ext s1 s3) by (eapply Ext_trans; eassumption).
     assert (Hr3 : ~ In o (regids s3)) by (intros H; apply Hr1; apply (Ext_regids _ _ E13); exact H).
     assert (Hp3 : ~ In o (pids s3)) by (intros H; apply Hp1; apply (Ext_pids _ _ E13); exact H).
     destruct (add_free_ok A s3 o G3 HoA Hr3 Hp3) as (G4 & E4 & Dn).
-    split; [exact G4|]. split; [|exact Dn].
-    eapply Ext_trans; [exact E1|]. eapply Ext_trans; [exact E13 | exact E4].
+    set (s4 := add_log (LFree o) s3) in *.
+    assert (E34 : Ext s2 s4) by (eapply Ext_trans; eassumption).
+    split; [exact G4|]. split; [|split; [exact Dn|]].
+    + eapply Ext_trans; [exact E1|]. eapply Ext_trans; [exact E13 | exact E4].
+    + intros Hrun y q H0 H4 Hoy Hin.
+      destruct (Nat.eq_dec y o) as [->|Hne].
+      * assert (q = p) by congruence. subst q.
+        apply (e_done _ _ E34). apply D2; [exact Hrun | exact Hin].
+      * apply (e_done _ _ E34).
+        apply (C2 Hrun y q).
+        -- rewrite (Hfin1 y Hne). exact H0.
+        -- assert (fin_count s4 y = fin_count s2 y) by (unfold s4, s3; rewrite fin_add_free; reflexivity). lia.
+        -- exact Hoy.
+        -- exact Hin.
   - destruct (add_free_ok A s1 o G1 HoA Hr1 Hp1) as (G4 & E4 & Dn).
-    split; [exact G4|]. split; [|exact Dn].
-    eapply Ext_trans; [exact E1 | exact E4].
+    split; [exact G4|]. split; [|split; [exact Dn|]].
+    + eapply Ext_trans; [exact E1 | exact E4].
+    + intros Hrun y q H0 H4 Hoy Hin.
+      destruct (Nat.eq_dec y o) as [->|Hne]; [congruence|].
+      rewrite fin_add_free in H4. rewrite (Hfin1 y Hne) in H4. lia.
 Qed.
 
 (* ------------------------------------------------------------------ the sweep *)
@@ -511,36 +578,41 @@ Proof. unfold null_pend. apply map_length. Qed.
 Lemma sweep_loop_ok k : forall i s,
   GInv [] s -> (forall j, j < i -> nth j (pend s) None = None) -> i + k = length (pend s) ->
   let s' := sweep_loop true true k i s in
-  GInv [] s' /\ Ext s s' /\ pids s' = [].
+  GInv [] s' /\ Ext s s' /\ pids s' = [] /\ Clo s s'.
 Proof.
   induction k as [|k IH]; intros i s G Hnone Hlen; cbn [sweep_loop].
-  - split; [exact G|]. split; [apply Ext_refl|].
+  - split; [exact G|]. split; [apply Ext_refl|]. split; [|apply Clo_refl].
     apply all_none_somes. intros j Hj. apply Hnone. lia.
   - destruct (nth i (pend s) None) as [o|] eqn:Hnth.
     + assert (Hin : In o (pids s)) by (eapply nth_in_somes; exact Hnth).
       destruct (null_pend_ok [] s o G Hin) as (G1 & N1 & N2 & F0 & M1 & R1 & I1 & D1 & T1 & B1 & O1 & L1 & Rg1 & P1 & K1).
       set (s1 := set_pend (null_pend o (pend s)) s) in *.
       assert (Hinf : info s1 o <> None) by (rewrite I1; apply (g_info _ _ G); right; exact Hin).
-      destruct (finalise_ok (fuel_of s1) [] s1 o G1 N1 N2 F0 Hinf ltac:(unfold fuel_of, measure; lia)) as (G2 & E2 & Dn).
+      destruct (finalise_ok (fuel_of s1) [] s1 o G1 N1 N2 F0 Hinf ltac:(unfold fuel_of, measure; lia)) as (G2 & E2 & Dn & C2).
       set (s2 := finalise true (fuel_of s1) s1 o) in *.
       assert (E : Ext s s2).
       { assert (Hreg : incl (reg s1) (reg s)) by (rewrite Rg1; apply incl_refl).
         assert (Kr : forall x, In x (regids s) -> x <> o -> In x (regids s1)).
         { intros x Hx _. unfold regids. rewrite Rg1. exact Hx. }
         assert (Hm' : measure s1 <= measure s) by lia.
-        exact (Ext_from_removed s s1 _ o R1 I1 D1 T1 B1 O1 L1 Hreg P1 Kr K1 Hm' E2 Dn). }
+        exact (Ext_from_removed s s1 _ o R1 I1 D1 T1 B1 O1 L1 Hreg P1 Kr K1 Hm' eq_refl E2 Dn). }
+      assert (C : Clo s s2).
+      { assert (Kr : forall x, In x (regids s) -> x <> o -> In x (regids s1)).
+        { intros x Hx _. unfold regids. rewrite Rg1. exact Hx. }
+        exact (Clo_from_removed s s1 _ o R1 L1 eq_refl Kr K1 C2 Dn). }
       assert (Hl2 : length (pend s2) = length (pend s)) by (apply F2_length, E).
-      destruct (IH (S i) s2 G2) as (G3 & E3 & P3).
+      destruct (IH (S i) s2 G2) as (G3 & E3 & P3 & C3).
       * intros j Hj. apply (F2_nth_none _ _ _ (e_pend _ _ E2)).
         destruct (Nat.eq_dec j i) as [->|Hne].
         -- apply nth_null_none. exact Hnth.
         -- apply (F2_nth_none _ _ _ P1). apply Hnone. lia.
       * lia.
-      * split; [exact G3|]. split; [eapply Ext_trans; eassumption | exact P3].
-    + destruct (IH (S i) s G) as (G3 & E3 & P3).
+      * split; [exact G3|]. split; [eapply Ext_trans; eassumption |]. split; [exact P3|].
+        eapply Clo_trans; eassumption.
+    + destruct (IH (S i) s G) as (G3 & E3 & P3 & C3).
       * intros j Hj. destruct (Nat.eq_dec j i) as [->|Hne]; [exact Hnth | apply Hnone; lia].
       * lia.
-      * split; [exact G3|]. split; [exact E3 | exact P3].
+      * split; [exact G3|]. split; [exact E3 |]. split; [exact P3 | exact C3].
 Qed.
 
 Lemma NoDup_app_intro {A} (l1 l2 : list A) :
@@ -593,7 +665,7 @@ Lemma sweep_ok order marks s :
   GInv [] s -> pend s = [] ->
   let s' := sweep true true order marks s in
   GInv [] s' /\ pend s' = [] /\ Ext s s' /\
-  (forall x, In x (regids s) -> is_root s x = false -> ~ In x marks -> done s' x).
+  (forall x, In x (regids s) -> is_root s x = false -> ~ In x marks -> done s' x) /\ Clo s s'.
 Proof.
   intros G Hpe. unfold sweep. fold (dead_of order marks s).
   set (dead := dead_of order marks s).
@@ -623,7 +695,7 @@ Proof.
     - intros x [Hx|Hx]; apply (g_info _ _ G); left.
       + rewrite Hr1, filter_In in Hx. tauto.
       + rewrite Hp1 in Hx. apply Hdead_in. exact Hx. }
-  destruct (sweep_loop_ok (length dead) 0 s1 G1) as (G2 & E2 & P2).
+  destruct (sweep_loop_ok (length dead) 0 s1 G1) as (G2 & E2 & P2 & C2).
   { intros j Hj. lia. }
   { unfold s1. simpl. rewrite map_length. reflexivity. }
   set (s2 := sweep_loop true true (length dead) 0 s1) in *.
@@ -633,7 +705,7 @@ Proof.
     - rewrite P2. intros []. }
   assert (Hreg_incl : incl (reg s2) (reg s)).
   { eapply incl_tran; [apply E2|]. unfold s1, r'. simpl. apply incl_filter. }
-  split; [|split; [reflexivity|split]].
+  split; [|split; [reflexivity|split; [|split]]].
   - constructor; try apply G2. 
     + constructor.
     + intros x Hx [].
@@ -657,9 +729,18 @@ Proof.
         apply in_map_iff in Hx. destruct Hx as [e [<- He]]. apply in_map, Hreg_incl, He. }
       unfold regids in Hl. rewrite !map_length in Hl. simpl reg. lia.
     + intros x H0 H1. apply (e_src _ _ E2 x); [rewrite Hf; exact H0 | exact H1].
+    + intros y Hy. apply (e_owned _ _ E2 y Hy).
   - intros x Hx Hroot Hm. apply Hdone_dead. unfold dead, dead_of. rewrite filter_In. split.
     + apply Hain. exact Hx.
     + rewrite Hroot. simpl. destruct (existsb (Nat.eqb x) marks) eqn:Ee; [apply existsb_eqb_in in Ee; contradiction | reflexivity].
+  - (* closure: the owned object was registered in s: it is dead (pending in s1) or still registered in s1 *)
+    intros Hrun y p H0 H3 Hoy Hin.
+    destruct Hin as [Hin|Hin]; [|unfold pids in Hin; rewrite Hpe in Hin; destruct Hin].
+    apply (C2 Hrun y p); [rewrite Hf; exact H0 | exact H3 | exact Hoy |].
+    destruct (in_dec Nat.eq_dec p dead) as [Hd|Hnd].
+    + right. rewrite Hp1. exact Hd.
+    + left. rewrite Hr1, filter_In. split; [exact Hin|].
+      destruct (existsb (Nat.eqb p) dead) eqn:Ee; [apply existsb_eqb_in in Ee; contradiction | reflexivity].
 Qed.
 
 (* ------------------------------------------------------------------ whole histories *)
@@ -848,12 +929,14 @@ Proof.
     + split; [exact S1|]. intros R _. apply R1; auto.
   - (* ELink b (Some o) *)
     match goal with |- context [if ?c then _ else _] => destruct c end; [|apply SInv_set_bad'; exact S].
-    destruct (set_owned_ok [] s (upd_owned (owned s) b (Some o)) G) as (G' & E').
-    destruct (SInv_ext _ _ S G' E') as [S' R']. split; [exact S'|]. intros R _. apply R', R.
+    split.
+    + constructor; try apply S. eapply GInv_same_core; try exact G; reflexivity.
+    + intros R _. exact R.
   - (* ELink b None *)
     match goal with |- context [if ?c then _ else _] => destruct c end; [|apply SInv_set_bad'; exact S].
-    destruct (set_owned_ok [] s (upd_owned (owned s) b None) G) as (G' & E').
-    destruct (SInv_ext _ _ S G' E') as [S' R']. split; [exact S'|]. intros R _. apply R', R.
+    split.
+    + constructor; try apply S. eapply GInv_same_core; try exact G; reflexivity.
+    + intros R _. exact R.
   - (* EDel *)
     destruct (live s o) eqn:Hlive; simpl andb; cbv iota; [|apply SInv_set_bad'; exact S].
     destruct (live_spec _ _ Hlive) as [Hf0 Hinf].
@@ -998,16 +1081,16 @@ Proof.
     simpl in Hk. inversion Hk; subst k'. apply (R Ht o k b' Hi Hne Hf0). }
   destruct k.
   - destruct Hrun as [Hrun|Hrun]; [discriminate|].
-    destruct (gc_rem_ok _ _ (finalise_ok (fuel_of s)) [] s o G ltac:(unfold fuel_of, measure; lia)) as (_ & _ & Hd).
+    destruct (gc_rem_ok _ _ (finalise_ok (fuel_of s)) [] s o G ltac:(unfold fuel_of, measure; lia)) as (_ & _ & Hd & _).
     apply Hd; [exact Hrun | left; apply Hreg; discriminate].
   - destruct Hrun as [Hrun|Hrun]; [discriminate|].
-    destruct (gc_rem_ok _ _ (finalise_ok (fuel_of s)) [] s o G ltac:(unfold fuel_of, measure; lia)) as (_ & _ & Hd).
+    destruct (gc_rem_ok _ _ (finalise_ok (fuel_of s)) [] s o G ltac:(unfold fuel_of, measure; lia)) as (_ & _ & Hd & _).
     apply Hd; [exact Hrun | left; apply Hreg; discriminate].
   - assert (Hno : ~ In o (regids s)).
     { intros Hin. unfold regids in Hin. apply in_map_iff in Hin. destruct Hin as [[y r] [Hy Hin]]. simpl in Hy. subst y.
       destruct (si_reginfo _ S o r Hin) as [b' Hb']. unfold kind_of in Hk. rewrite Hb' in Hk. simpl in Hk. destruct r; discriminate. }
     assert (Hnp : ~ In o (pids s)) by (unfold pids; rewrite Hpe; intros []).
-    destruct (finalise_ok (fuel_of s) [] s o G Hno Hnp Hf0 Hinf ltac:(unfold fuel_of, measure; lia)) as (_ & _ & Hd).
+    destruct (finalise_ok (fuel_of s) [] s o G Hno Hnp Hf0 Hinf ltac:(unfold fuel_of, measure; lia)) as (_ & _ & Hd & _).
     exact Hd.
 Qed.
 
@@ -1023,7 +1106,7 @@ Proof.
   set (s := runF h) in *. apply done_step_of_step1; [exact Ht|].
   pose proof (si_g _ S) as G. pose proof (si_pend _ S) as Hpe.
   cbn [step1].
-  destruct (sweep_ok order [] s G Hpe) as (G3 & P3 & E3 & Hdead).
+  destruct (sweep_ok order [] s G Hpe) as (G3 & P3 & E3 & Hdead & _).
   assert (Hd : done (sweep true true order [] s) x).
   { destruct (Nat.eq_dec (fin_count s x) 0) as [Hz|Hnz].
     - apply Hdead.
